@@ -1538,13 +1538,20 @@ def _gen_homc(rng, force_multichain=False):
                         "res_name": ch if nuc else ProteinSequence.convert_letter_1to3(ch), "ca": pos.copy()})
         chains.append(res)
 
+    # Per chain at most ONE of the two structures misses residues (which one varies, so both directions — mobile chain
+    # longer / shorter, also in non-last chains — occur).  Deletions in BOTH structures of the same chain interact: with two
+    # gaps a few residues apart the optimal alignment legitimately prefers a run of mismatches over the two gaps (found
+    # on the unchanged tree: K E - E K G D M / K E S E K G - M scores -4, the shifted gap-free pairing -2) and a
+    # positively scoring mismatch becomes an anchor.  That is the sequence method's business (stream `homamb`), not a defect.
+    thinned = [rng.choice(["f", "m", "f", "m", "none"]) for _ in chains]
+
     def thin(direction):
         """residues present in one of the two structures"""
         keep = []
         for ci, res in enumerate(chains):
             L = len(res)
             present = [True] * L
-            r = rng.random()
+            r = rng.random() if thinned[ci] == direction else 1.0
             dmax = max(1, min(5, L // 5))      # short deletions: a sequence method cannot pair residues uniquely
             # with terminal_penalty=True terminal gaps are not free: the first/last resolved residue may pair equally
             # well with an identical residue inside the missing stretch (the gap splits at no cost).  Such deletions are
